@@ -394,7 +394,9 @@ class LinkLayer(Layer):
 
     def __init__(self, parent=None, layer_name=None, options=None):
         super().__init__(parent=parent, layer_name=layer_name, options=options)
-        self.__llcm = None
+        # Link-layer crypto managers of the pending/last encryption procedure,
+        # one per connection handle
+        self.__llcm = {}
 
     def configure(self, options=None):
         # Control PDU dispatch
@@ -475,6 +477,9 @@ class LinkLayer(Layer):
 
         # Remove connection from our registered connections
         self.state.unregister_connection(conn_handle)
+
+        # Drop the crypto material of this connection
+        self.__llcm.pop(conn_handle, None)
 
     @source('phy', 'data')
     def on_data_pdu_recv(self, pdu: Packet, conn_handle: int = None):
@@ -729,7 +734,7 @@ class LinkLayer(Layer):
             logger.info('[llm] Initiate connection LinkLayerCryptoManager')
 
             # Initiate LLCM
-            self.__llcm = LinkLayerCryptoManager(
+            self.__llcm[conn_handle] = LinkLayerCryptoManager(
                 encryption_key,
                 skdm,
                 ivm,
@@ -798,7 +803,7 @@ class LinkLayer(Layer):
             self.state.register_rand_and_ediv(conn_handle, enc_req.rand, enc_req.ediv)
 
             # Initiate LLCM
-            self.__llcm = LinkLayerCryptoManager(
+            self.__llcm[conn_handle] = LinkLayerCryptoManager(
                 encryption_key,
                 enc_req.skdm,
                 enc_req.ivm,
@@ -827,7 +832,7 @@ class LinkLayer(Layer):
             logger.info("[llm] slave    iv: %s", slave_iv.hex())
             logger.info("[llm] Session  TK: %s", encryption_key.hex())
             logger.info("[llm] Session  iv: %s", iv.hex())
-            logger.info("[llm] Exp. Ses iv: %s", self.__llcm.iv.hex())
+            logger.info("[llm] Exp. Ses iv: %s", self.__llcm[conn_handle].iv.hex())
             logger.info("[llm] Session key: %s", session_key.hex())
             skdm, ivm = self.state.get_skd_and_iv(conn_handle)
             logger.info(
@@ -889,20 +894,23 @@ class LinkLayer(Layer):
         #slave_skd = pack(">Q", enc_rsp.skds)
         #slave_iv = pack("<L", enc_rsp.ivs)
 
+        # Crypto material of the procedure pending on this connection
+        llcm = self.__llcm.get(conn_handle)
+
         # Generate session key diversifier
-        skd = self.__llcm.slave_skd + self.__llcm.master_skd
+        skd = llcm.slave_skd + llcm.master_skd
 
         # Generate initialization vector
-        iv = self.__llcm.master_iv + self.__llcm.slave_iv
+        iv = llcm.master_iv + llcm.slave_iv
 
         # Generate session key
-        session_key = e(self.__llcm.ltk, skd)
+        session_key = e(llcm.ltk, skd)
 
-        logger.info("[llm] master  skd: %s", self.__llcm.master_skd.hex())
-        logger.info("[llm] master   iv: %s", self.__llcm.master_iv.hex())
-        logger.info("[llm] slave   skd: %s", self.__llcm.slave_skd.hex())
-        logger.info("[llm] slave    iv: %s", self.__llcm.slave_iv.hex())
-        logger.info("[llm] Session  TK: %s", self.__llcm.ltk.hex())
+        logger.info("[llm] master  skd: %s", llcm.master_skd.hex())
+        logger.info("[llm] master   iv: %s", llcm.master_iv.hex())
+        logger.info("[llm] slave   skd: %s", llcm.slave_skd.hex())
+        logger.info("[llm] slave    iv: %s", llcm.slave_iv.hex())
+        logger.info("[llm] Session  TK: %s", llcm.ltk.hex())
         logger.info("[llm] Session  iv: %s", iv.hex())
         logger.info("[llm] Session key: %s", session_key.hex())
 
@@ -921,7 +929,7 @@ class LinkLayer(Layer):
             enabled=True,
             ll_key=session_key,
             ll_iv=iv,
-            key=self.__llcm.ltk,
+            key=llcm.ltk,
             rand=rand,
             ediv=ediv
         ):
